@@ -545,3 +545,68 @@ Example C14_example_aged :
   dk_session true dk_hs_ds dk_idle_ds dk_io_ds DkTlsP [34] = [(true, true); (false, false)] /\
   dk_case DkTlsP [34] = [(true, true); (true, false)].
 Proof. exact dk_leak_witness. Qed.
+
+(* =====================================================================================================================
+   Round 4 — the stream capacity of a multiplexed connection across abandoned exchanges (Net/Streams.v) and what bounds
+   a Write that blocks (Net/WriteBlock.v: the environment step "the write blocks until the kernel time-out, the peer
+   reads, or the socket is closed"); proofs Net/StreamsProofs.v, Net/WriteBlockProofs.v.
+   ===================================================================================================================== *)
+From Mos Require Import Net.Streams Net.StreamsProofs Net.WriteBlock Net.WriteBlockProofs.
+
+(* an exchange abandoned at its deadline cancels the read side of its stream: whatever sequence of answered and
+   abandoned exchanges, the peer's count of open streams is what it was - nothing leaks capacity *)
+Theorem C14_stream_capacity_never_leaks : forall es c, snd (sc_run true c es) = c.
+Proof. exact sc_no_capacity_leaks. Qed.
+Print Assumptions C14_stream_capacity_never_leaks.
+
+(* ... so every exchange the server answers gets its reply, however many were abandoned before it *)
+Theorem C14_answered_exchange_always_served : forall cap es,
+  0 < cap -> forall i, nth_error es i = Some ScGood -> nth_error (fst (sc_run true (mkSc cap 0) es)) i = Some true.
+Proof. exact sc_good_always_served. Qed.
+Print Assumptions C14_answered_exchange_always_served.
+
+(* the scenario of the kind "streams": any stream limit, any number of abandoned exchanges, then n answered ones *)
+Theorem C14_abandoned_streams_then_healthy : forall cap k n, 0 < cap -> snd (sc_case true cap k n) = repeat true n.
+Proof. exact sc_case_recovers. Qed.
+Print Assumptions C14_abandoned_streams_then_healthy.
+
+(* REFUTED for the variant whose ctx.Done() branch leaves the read side alone: after as many abandoned exchanges as the
+   peer allows streams, EVERY later exchange on the (live, kept-alive) connection fails *)
+Theorem C14_uncancelled_read_refuted : forall cap es,
+  fst (sc_run false (snd (sc_run false (mkSc cap 0) (repeat ScAbandon cap))) es) = repeat false (length es).
+Proof. exact sc_leaky_variant_wedges. Qed.
+Print Assumptions C14_uncancelled_read_refuted.
+
+(* ---- a Write that blocks ----
+   Full statement (the property): the exchange returns by its deadline + slack whatever the server does.
+   Proved (partial): it returns by its deadline + TCP_USER_TIMEOUT, because every attempt starts while the context is
+   live and the kernel ends a blocked write after that time-out. *)
+Theorem C14_blocked_write_bounded_partial : forall u idle dl cs retry t,
+  t <= dl -> wb_return (Some u) idle dl retry t cs <= dl + u.
+Proof. exact wb_bounded_by_deadline_plus_ut. Qed.
+Print Assumptions C14_blocked_write_bounded_partial.
+
+(* the server stops reading on one connection and refuses the others: back after exactly the kernel time-out *)
+Theorem C14_one_stalled_connection : forall u idle dl retry,
+  u <= idle -> wb_return (Some u) idle dl retry 0 [WbStall true; WbRefuse] = u.
+Proof. exact wb_one_stalled_connection. Qed.
+Print Assumptions C14_one_stalled_connection.
+
+(* REFUTED without the kernel time-out on the upstream sockets: nothing but the idle read deadline ends the write *)
+Theorem C14_no_user_timeout_refuted : forall idle dl retry cs,
+  wb_return None idle dl retry 0 (WbStall true :: cs) >= idle.
+Proof. exact wb_without_user_timeout. Qed.
+Print Assumptions C14_no_user_timeout_refuted.
+
+(* REFUTED on the code as it is (known finding K8): when EVERY connection of a pipelined upstream stalls, the retry after
+   the first 5 s blocks for another 5 s: 10 s with a 6 s deadline.  With the constants of the code: *)
+Theorem C14_every_connection_stalls_refuted :
+  wb_case true false = true /\ wb_case false false = false /\ wb_case true true = false /\
+  wb_return (Some wb_ut_ds) wb_idle_ds wb_dl_ds 0 0 [WbStall true; WbStall true; WbStall true] = 100.
+Proof. exact wb_cases. Qed.
+Print Assumptions C14_every_connection_stalls_refuted.
+
+Example C14_example_streams :
+  sc_case false 4 4 3 = (repeat false 4, repeat false 3) /\ sc_case true 4 4 3 = (repeat false 4, repeat true 3) /\
+  sc_case false 4 3 3 = (repeat false 3, repeat true 3).
+Proof. exact sc_witness. Qed.
